@@ -194,6 +194,35 @@ def rule_fast_path(model):
             r.finding(rb.where, 'skip flag polarity', 'strings with problem '
                       'characters skip quoting (flag inverted)', node=node,
                       ctx=rb)
+    elif any(isinstance(c, ast.Call) and 'html_quote:html_quote' in
+             model.callee_names(c, rb) for s_ in node.body
+             for c in ast.walk(s_)):
+        # shape: if <problem characters present>: t = html_quote(t)
+        neg = False
+        for c in ast.walk(node.test):
+            if isinstance(c, ast.Compare) and isinstance(c.ops[0], ast.In) \
+                    and isinstance(c.left, ast.Constant):
+                for a in ancestors(c):
+                    if a is node:
+                        break
+                    if isinstance(a, ast.UnaryOp) and isinstance(a.op,
+                                                                 ast.Not):
+                        neg = not neg
+                    if isinstance(a, ast.BoolOp) and isinstance(a.op,
+                                                                ast.And):
+                        # conjunction with the character tests is fine only
+                        # for `isinstance(t, str) and (...)`-style guards
+                        pass
+                break
+        r.instance(rb.where, 'problem chars -> html_quote(...)',
+                   'negated' if neg else 'positive')
+        if neg:
+            r.finding(rb.where, 'skip flag polarity', 'strings with problem '
+                      'characters skip quoting (test inverted)', node=node,
+                      ctx=rb)
+    else:
+        raise AnalysisError('render_blocks_: cannot relate the character '
+                            'test to the quoting decision')
     # bytes are never skipped
     return r
 
@@ -293,11 +322,12 @@ def rule_identity(model):
     rb = model.func('_DocumentTemplate', 'render_blocks_')
     # the value variable: assigned from md[...] subscripts
     var = None
+    params = rb.params()
+    ns = params[2] if len(params) > 2 else 'md'
     for n in own_nodes(rb.node):
         if isinstance(n, ast.Assign) and isinstance(n.value, ast.Subscript) \
                 and isinstance(n.targets[0], ast.Name) and \
-                isinstance(n.value.slice, ast.Name) and \
-                n.value.slice.id == n.targets[0].id and var is None:
+                norm(n.value.value) == ns and var is None:
             var = n.targets[0].id
     if var is None:
         raise AnalysisError('render_blocks_: value variable not found')
@@ -308,7 +338,8 @@ def rule_identity(model):
             if isinstance(n.value, ast.Subscript) or (
                     isinstance(n.value, ast.Call) and
                     isinstance(n.value.func, ast.Name) and
-                    n.value.func.id == var):
+                    len(n.value.args) == 1 and
+                    norm(n.value.args[0]) == ns):
                 continue          # the lookups themselves
             if isinstance(n.value, ast.Subscript):
                 continue
@@ -332,7 +363,7 @@ def rule_identity(model):
                 r.finding(rb.where, n, f'the value `{var}` is rewritten on '
                           'the plain insertion path (no quoting option, str '
                           'value)', node=n, ctx=rb)
-    if n_assign < 3:
+    if n_assign < 2:
         raise AnalysisError('render_blocks_: value rewrites not found')
     return r
 
